@@ -1490,10 +1490,21 @@ func (c *Ctx) degreeSizesByFolding() bool {
 		ok   bool
 	}
 	got := map[string]res{}
+	var orderDep []string
 	for name, q := range enum {
 		for n := int64(0); n <= 64; n++ {
 			recv := fval{fields: map[string]fval{"Value": {k: constant.MakeInt64(n)}, "Name": {k: constant.MakeInt64(q)}}}
-			r, err := c.newFolder().foldCall(fn, []fval{recv})
+			fd := c.newFolder()
+			r, err := fd.foldCall(fn, []fval{recv})
+			if err == nil && fd.sawMapRange {
+				// the function searches a table by ranging over a map: its answer must not depend on the order of visit
+				fr := c.newFolder()
+				fr.reverseMaps = true
+				r2, err2 := fr.foldCall(fn, []fval{recv})
+				if err2 != nil || r2.String() != r.String() {
+					orderDep = append(orderDep, fmt.Sprintf("%s %d: %s visiting the table first to last, %s last to first", name, n, r.String(), r2.String()))
+				}
+			}
 			if err != nil || len(r.tuple) != 2 || r.tuple[1].k == nil || r.tuple[1].k.Kind() != constant.Bool {
 				if os.Getenv("CRDCHECK_DEBUG") != "" {
 					fmt.Fprintf(os.Stderr, "degreeSizesByFolding: %s %d does not fold: %v %v\n", name, n, err, r)
@@ -1531,5 +1542,11 @@ func (c *Ctx) degreeSizesByFolding() bool {
 		}
 		c.check(problem == "", key, c.pos(fn.Pos()), fname(fn), "size and validity for numbers 0..64 agree with the specification (folded)", "note.Degree.Semitone: "+problem)
 	}
+	c.site(1)
+	sort.Strings(orderDep)
+	if len(orderDep) > 3 {
+		orderDep = append(orderDep[:3], fmt.Sprintf("... and %d more", len(orderDep)-3))
+	}
+	c.check(len(orderDep) == 0, "note.Degree.Semitone|order", c.pos(fn.Pos()), fname(fn), "the table search gives the same answer whichever way the map is visited", "note.Degree.Semitone depends on map iteration order (two rows qualify): "+strings.Join(orderDep, "; ")+" — the same command gives different bytes on different runs")
 	return true
 }
